@@ -6,7 +6,7 @@ export CARGO_NET_OFFLINE=true
 python3 translate/gen.py --repo /repo || true
 (cd lean && lake build SalsaVerif svdriver)
 cp -n /repo/Cargo.lock harness/Cargo.lock 2>/dev/null || true
-(cd harness && CARGO_TARGET_DIR=/verif/.target/default cargo build --offline --bin edges --bin seq --bin store)
+(cd harness && CARGO_TARGET_DIR=/verif/.target/default cargo build --offline --bin edges --bin seq --bin store --bin life --bin structs)
 (cd harness && CARGO_TARGET_DIR=/verif/.target/persist cargo build --offline --features persistence --bin edges)
 (cd harness && CARGO_TARGET_DIR=/verif/.target/persist cargo build --offline --features persistence --bin persist)
 (cd harness && CARGO_TARGET_DIR=/verif/.target/threads cargo build --offline --bin conc)
